@@ -5,6 +5,7 @@ import ast
 from .. import astq
 from .. import sym as S
 from ..dt import DT
+from ..report import MISSING
 from ..model import AnalysisError
 from ..symeval import SymEval
 from . import cli_common as cc
@@ -43,8 +44,8 @@ def realness(ctx, R="R-C07-realness"):
         f = prog.own_method(c, "get_impulse_response")
         if name == "TriangularOverlappingFilterBank":
             allocs = [n for n in f.body_nodes() if isinstance(n, ast.Assign) and astq.is_name(n.targets[0], "res") and isinstance(n.value, ast.Call)]
-            ok = len(allocs) == 1 and astq.text(astq.kw(allocs[0].value, "dtype")).replace(" ", "") == "np.complex128ifself._analyticelsenp.float64" and real_expr == "notself._analytic"
-            ctx.check(ok, R, f, allocs[0] if allocs else f.node, "triangular: the impulse response is complex128 iff analytic, and is_real is `not analytic`",
+            ok = len(allocs) == 1 and astq.eq_text(astq.kw(allocs[0].value, "dtype"), "np.complex128ifself._analyticelsenp.float64") and real_expr == "notself._analytic"
+            ctx.check(ok, R, f, allocs[0] if allocs else MISSING(f.node), "triangular: the impulse response is complex128 iff analytic, and is_real is `not analytic`",
                       "triangular impulse response dtype is %s while is_real returns %s" % (astq.text(astq.kw(allocs[0].value, "dtype")) if allocs else None, real_expr))
             rr = astq.returns_of(f)
             ctx.check(all(astq.is_name(x.value, "res") for x in rr), R, f, f.node, "triangular: that buffer is what is returned")
@@ -62,7 +63,7 @@ def realness(ctx, R="R-C07-realness"):
         else:
             allocs = [n for n in f.body_nodes() if isinstance(n, ast.Assign) and astq.is_name(n.targets[0], "res") and isinstance(n.value, ast.Call)]
             ok = len(allocs) == 1 and astq.text(astq.kw(allocs[0].value, "dtype")) == "np.complex128" and real_expr == "False"
-            ctx.check(ok, R, f, allocs[0] if allocs else f.node, "%s: the impulse response is always complex128 and is_real is constantly False" % name,
+            ctx.check(ok, R, f, allocs[0] if allocs else MISSING(f.node), "%s: the impulse response is always complex128 and is_real is constantly False" % name,
                       "%s impulse response dtype %s vs is_real %s" % (name, astq.text(astq.kw(allocs[0].value, "dtype")) if allocs else None, real_expr))
         zp = prog.own_method(c, "is_zero_phase")
         want = "False" if name == "ComplexGammatoneFilterBank" else "True"
@@ -74,21 +75,21 @@ def support_sign(ctx, R="R-C07-support-sign"):
     for name in fc.VERTEX_BANKS:
         f = prog.own_method(fc.bank(prog, name), "supports")
         apps = [x for x in astq.func_calls(f) if astq.attr_call(x, "append")]
-        ok = len(apps) == 1 and astq.text(apps[0].args[0]).replace(" ", "") == "(-K//2-1,K//2+1)"
-        ks = [n for n in f.body_nodes() if isinstance(n, ast.Assign) and astq.is_name(n.targets[0], "K") and astq.text(n.value).replace(" ", "") == "int(np.ceil(K))"]
-        ctx.check(ok and len(ks) == 1, R, f, apps[0] if apps else f.node,
+        ok = len(apps) == 1 and astq.eq_text(apps[0].args[0], "(-K//2-1,K//2+1)")
+        ks = [n for n in f.body_nodes() if isinstance(n, ast.Assign) and astq.is_name(n.targets[0], "K") and astq.eq_text(n.value, "int(np.ceil(K))")]
+        ctx.check(ok and len(ks) == 1, R, f, apps[0] if apps else MISSING(f.node),
                   "%s: supports are (-K//2 - 1, K//2 + 1) with K = int(ceil(.)) >= 0, i.e. strictly negative / strictly positive ends" % name,
                   "%s supports entry is %s" % (name, astq.text(apps[0].args[0]) if apps else None))
     c, f, ev = fc.ctor_eval(prog, "GaborFilterBank")
     apps = [x for x in astq.func_calls(f) if astq.attr_call(x, "append") and astq.is_name(x.func.value, "supports")]
-    ok = len(apps) == 1 and astq.text(apps[0].args[0]).replace(" ", "") == "(-diff_samps,diff_samps)"
+    ok = len(apps) == 1 and astq.eq_text(apps[0].args[0], "(-diff_samps,diff_samps)")
     ds = [n for n in f.body_nodes() if isinstance(n, ast.Assign) and astq.is_name(n.targets[0], "diff_samps")]
     ok = ok and len(ds) == 2 and all(astq.text(n.value).replace(" ", "").startswith("int(np.ceil(") for n in ds)
-    ctx.check(ok, R, f, apps[0] if apps else f.node, "Gabor: supports are (-d, d) with d = int(ceil(.))", "Gabor supports entry is %s" % (astq.text(apps[0].args[0]) if apps else None))
+    ctx.check(ok, R, f, apps[0] if apps else MISSING(f.node), "Gabor: supports are (-d, d) with d = int(ceil(.))", "Gabor supports entry is %s" % (astq.text(apps[0].args[0]) if apps else None))
     g = prog.own_method(fc.bank(prog, "ComplexGammatoneFilterBank"), "_calculate_temp_support")
     r = astq.returns_of(g)
-    ok = len(r) == 1 and astq.text(r[0].value).replace(" ", "") == "(int(np.floor(offset)),int(np.ceil(right)+offset))"
-    ctx.check(ok, R, g, r[0] if r else g.node, "gammatone: the support starts at floor(offset)", "gammatone support is %s" % (astq.text(r[0].value) if r else None))
+    ok = len(r) == 1 and astq.eq_text(r[0].value, "(int(np.floor(offset)),int(np.ceil(right)+offset))")
+    ctx.check(ok, R, g, r[0] if r else MISSING(g.node), "gammatone: the support starts at floor(offset)", "gammatone support is %s" % (astq.text(r[0].value) if r else None))
     for mc in (True, False):
         c, f, ev = fc.ctor_eval(prog, "ComplexGammatoneFilterBank", {"max_centered": mc})
         loops = [n for n in f.body_nodes() if isinstance(n, ast.For) and "edges[:-1]" in astq.text(n.iter)]
